@@ -60,6 +60,8 @@ impl Scenario for Smoke {
             kv_faults: vec![],
             crashes: vec![],
             restart_after_us: SEC,
+            cancels: vec![],
+            calm_at_us: None,
         };
         let run = drive_full(seed, cfg);
         let mut out = Outcome::default();
